@@ -103,6 +103,18 @@ def gen_source(rnd, idx, supplemental=False, same_layout_as=None):
             if j < len(r['cells']):
                 r['cells'][j] = rnd.choice(['', ' ']) + d + rnd.choice(['', ' '])
                 r['exp']['desc'] = d
+    # repeated charges: rows that repeat another row's description and amount cells on another date (a subscription, a fare),
+    # so that anything keyed on (description, amount) alone conflates rows that a month/date rule tells apart
+    import copy as _copy
+    from datetime import datetime as _dt
+    jd = lay['roles'].index('date')
+    for r in [x for x in rows if x['exp'] and x['kind'] == 'ok' and len(x['cells']) == len(lay['roles'])]:
+        if rnd.random() < .3:
+            c = _copy.deepcopy(r)
+            d2 = _dt(rnd.choice([2024, 2025]), rnd.randint(1, 12), rnd.randint(1, 28))
+            c['cells'][jd] = d2.strftime(lay['dfmt'])
+            c['exp']['date'] = d2
+            rows.insert(rnd.randint(0, len(rows)), c)
     src = c05.build_source(lay, conv, delim, hdr, rnd)
     src['name'] = name
     src['file'] = 'data/%s.csv' % name.lower()
@@ -156,6 +168,12 @@ def gen_budget(rnd, nsources=None, rules='random', views=None, supplemental=None
             rf.transforms = [('field.description', 'regex_replace(field.description, "^S\\\\d+ ", "")')] + list(rf.transforms)
             for r in rf.rules[:max(1, len(rf.rules) // 2)]:
                 r.match = 'startswith("%s")' % rnd.choice(WORDS).split(' ')[0]
+        if rnd.random() < .4:
+            # calendar-dependent rules ahead of the rest: the same description and amount classify differently by month / year
+            w = rnd.choice(WORDS + ['S0', 'S1']).split(' ')[0]
+            m = rnd.randint(2, 11)
+            rf.rules.insert(0, R.Rule('Late %s' % w.title(), 'contains("%s") and month > %d' % (w, m), 'Calendar', 'Late'))
+            rf.rules.insert(0, R.Rule('LastYear %s' % w.title(), 'contains("%s") and year < 2025' % w, 'Calendar', 'LastYear', tags=['old']))
         if b['supplemental']:
             rf.rules.insert(rnd.randint(0, len(rf.rules)), supplemental_rules(rnd, 1))
         for i, tg in enumerate(['income', 'transfer', 'investment']):
